@@ -182,3 +182,29 @@ def base_cases(ctx):
     cases.append(("frag-1FTJ-A100+30", corpus.fragment("1FTJ-Chain-A", "A", 100, 30), []))
     cases.append(("none", corpus.no_group_structure(), []))
     return cases
+
+
+def kit_cases(ctx, every=1, dists=(3200, 5500, 8500)):
+    """Each molecule of the synthetic ligand kit next to an acid, a base and a histidine of a real fragment."""
+    from . import ligandkit as K
+    base = corpus.chain_lines("1HPX", "A", 40, 30)      # Lys43, Lys45, Asp60, His69 ...
+    cx, cy, cz = corpus.centroid(base)
+    anchors = []
+    for ln in base:
+        if corpus.is_atom(ln) and (ln[17:20], ln[12:16].strip()) in (("ASP", "CG"), ("LYS", "NZ"), ("HIS", "NE2")):
+            r = corpus.pdbio.parse_line(ln)
+            anchors.append((ln[17:20] + ln[22:26].strip(), (r.x, r.y, r.z)))
+    out = []
+    names = sorted(K.molecules())
+    k = 0
+    for name in names:
+        for an, (x, y, z) in anchors[:3]:
+            for d in dists:
+                k += 1
+                if k % every != ctx.seed % every:
+                    continue
+                v = (x - cx, y - cy, z - cz)
+                n = max(1.0, sum(c * c for c in v) ** 0.5)
+                org = tuple(int(a + d * c / n) + 3 for a, c in zip((x, y, z), v))
+                out.append((f"kit-{name}@{an}+{d}", corpus.join(base + [corpus.TER] + K.lines(name, org)), []))
+    return out
